@@ -150,7 +150,14 @@ def run(chk):
             if not (len(c["M"]) == 0):
                 dis.append(dict(input=c, impl=i, model=[mM, mN]))
         elif not (C.all_same(i[1], mM) and C.all_same(i[2], mN)):
-            dis.append(dict(input=c, impl=C.jsonable(i), model=C.jsonable([mM, mN, v[1]])))
+            # libm's pow(x, 2.0) is not always the correctly rounded x*x the model uses for `Mtot ** 2`; when the requested residue is
+            # pure cancellation (target ~ 0) that one ulp shows up in the partly depleted bin.  Allowed: a few ulps of the largest bin.
+            big = max([abs(x) for x in c["M"]] + [1e-300])
+            ratio = max([n_ / m_ for m_, n_ in zip(c["M"], c["N"]) if m_ > 0] + [0.0])
+            if C.all_close(i[1], mM, rtol=1e-12, atol=1e-14 * big) and C.all_close(i[2], mN, rtol=1e-12, atol=1e-14 * big * ratio):
+                chk.count("residue equal up to pow(x,2) rounding (not bit-exact)")
+            else:
+                dis.append(dict(input=c, impl=C.jsonable(i), model=C.jsonable([mM, mN, v[1]])))
         if i[0] == "Ok" and not i[3]:
             chk.fail("in-place routine returns the arrays it was given", c, i)
         oracle_array(chk, c, i)
